@@ -87,7 +87,99 @@ func resultType(c *ssa.CallCommon) types.Type {
 	return sig.Results()
 }
 
+// doCall runs the caller-contract hooks attached to this call site (asserted
+// clauses before the call, ghost updates after it) around the call itself.
 func (fr *Frame) doCall(site ssa.Instruction, c *ssa.CallCommon, fv Val, args []Val, cond T, st *State) (Val, T) {
+	vc := fr.x.vc
+	if fr.ct == nil || !fr.top || (len(fr.ct.CallAsserts) == 0 && len(fr.ct.CallSets) == 0) {
+		return fr.doCall0(site, c, fv, args, cond, st)
+	}
+	key := ""
+	if c.IsInvoke() {
+		key = invokeKey(c)
+	} else if cv, ok := fv.(*ClosV); ok {
+		key = funcKey(cv.Fn)
+	}
+	if key == "" {
+		return fr.doCall0(site, c, fv, args, cond, st)
+	}
+	seq := fr.siteOrdinal(site, key)
+	keys := []string{fmt.Sprintf("%s#%d", key, seq), key + "#all"}
+	bind := func(cev *Eval) {
+		sig := c.Signature()
+		off := 0
+		if sig.Recv() != nil || c.IsInvoke() {
+			off = 1
+			if len(args) > 0 {
+				var rt types.Type
+				if c.IsInvoke() {
+					rt = c.Value.Type()
+				} else if sig.Recv() != nil {
+					rt = sig.Recv().Type()
+				}
+				cev.names["$recv"] = tv{args[0], rt}
+			}
+		}
+		for i := 0; i < sig.Params().Len() && i+off < len(args); i++ {
+			cev.names[fmt.Sprintf("$arg%d", i)] = tv{args[i+off], sig.Params().At(i).Type()}
+		}
+	}
+	if vc.dry == 0 {
+		if vc.firedSites == nil {
+			vc.firedSites = map[string]bool{}
+		}
+		for _, k := range keys {
+			vc.firedSites[k] = true
+		}
+	}
+	for _, k := range keys {
+		if cls, ok := fr.ct.CallAsserts[k]; ok {
+			cev := fr.evaluator(st)
+			bind(cev)
+			for i, cl := range cls {
+				label := fmt.Sprintf("%d.%d", seq, i)
+				if len(cl.Tags) > 0 {
+					label = fmt.Sprintf("%d.%s", seq, cl.Tags[0])
+				}
+				vc.oblige("assert@"+key, label, cl.Src, cl.Tags, fr.posOf(site), cond, cev.evalBool(cl.E))
+			}
+		}
+	}
+	res, c2 := fr.doCall0(site, c, fv, args, cond, st)
+	for _, k := range keys {
+		for _, sd := range fr.ct.CallSets[k] {
+			srt, ok := vc.eng.cs.Ghosts[sd.Ghost]
+			if !ok {
+				panic(fmt.Errorf("contract %s: set of undeclared ghost %s", fr.ct.Key, sd.Ghost))
+			}
+			cev := fr.evaluator(st)
+			bind(cev)
+			sig := c.Signature()
+			switch rv := res.(type) {
+			case *TupleV:
+				for i := range rv.E {
+					if i < sig.Results().Len() {
+						cev.names[fmt.Sprintf("$result%d", i)] = tv{rv.E[i], sig.Results().At(i).Type()}
+					}
+				}
+			case nil:
+			default:
+				if sig.Results().Len() == 1 {
+					cev.names["$result0"] = tv{rv, sig.Results().At(0).Type()}
+				}
+			}
+			v := cev.eval(sd.E)
+			t, isT := v.v.(T)
+			if !isT || t.Sort != srt {
+				panic(fmt.Errorf("contract %s: set %s: sort mismatch", fr.ct.Key, sd.Ghost))
+			}
+			st.setGlob(sd.Ghost, vc.name(sd.Ghost, t))
+		}
+	}
+	return res, c2
+}
+
+func (fr *Frame) doCall0(site ssa.Instruction, c *ssa.CallCommon, fv Val, args []Val, cond T, st *State) (Val, T) {
 	vc := fr.x.vc
 	rt := resultType(c)
 	fresh := func(hint string) Val {
@@ -241,8 +333,7 @@ func (fr *Frame) callContract(site ssa.Instruction, ct *Contract, key string, fn
 	if assumed {
 		vc.assume("assumed contract: " + key)
 	}
-	fr.callSeq[key]++
-	seq := fr.callSeq[key]
+	seq := fr.siteOrdinal(site, key)
 	pre := st.clone()
 	pre.rec = nil
 	ev := &Eval{vc: vc, st: st, old: pre, names: map[string]tv{}, qv: map[string]tv{}, ctx: "call " + key}
@@ -278,27 +369,6 @@ func (fr *Frame) callContract(site ssa.Instruction, ct *Contract, key string, fn
 		}
 	}
 	ev.applyLets(ct)
-	// user asserts attached to this call site in the caller's contract
-	if fr.ct != nil && fr.top {
-		if cls, ok := fr.ct.CallAsserts[fmt.Sprintf("%s#%d", key, seq)]; ok {
-			cev := fr.evaluator(st)
-			for i, cl := range cls {
-				vc.oblige("assert@"+key, fmt.Sprintf("%d.%d", seq, i), cl.Src, cl.Tags, fr.posOf(site), cond, cev.evalBool(cl.E))
-			}
-		}
-		if cls, ok := fr.ct.CallAsserts[key+"#all"]; ok {
-			cev := fr.evaluator(st)
-			// bind callee parameter names for convenience
-			for k, v := range ev.names {
-				if _, exists := cev.names[k]; !exists {
-					cev.names["$"+k] = v
-				}
-			}
-			for i, cl := range cls {
-				vc.oblige("assert@"+key, fmt.Sprintf("%d.%d", seq, i), cl.Src, cl.Tags, fr.posOf(site), cond, cev.evalBool(cl.E))
-			}
-		}
-	}
 	for i, rq := range ct.Requires {
 		g := ev.evalBool(rq.E)
 		vc.oblige("pre@"+key, fmt.Sprintf("%d.%d", seq, i), rq.Src, append(append([]string(nil), rq.Tags...), fr.ctTags()...), fr.posOf(site), cond, g)
@@ -339,6 +409,40 @@ func (fr *Frame) callContract(site ssa.Instruction, ct *Contract, key string, fn
 }
 
 func (fr *Frame) ctTags() []string { return nil }
+
+// siteOrdinal numbers the call sites of one callee statically (source order of
+// the SSA blocks), so that contract references like callee#2 are stable and do
+// not depend on how often the executor visits a site.
+func (fr *Frame) siteOrdinal(site ssa.Instruction, key string) int {
+	if fr.siteOrd == nil {
+		fr.siteOrd = map[ssa.Instruction]int{}
+		counts := map[string]int{}
+		for _, b := range fr.fn.Blocks {
+			for _, in := range b.Instrs {
+				ci, ok := in.(ssa.CallInstruction)
+				if !ok {
+					continue
+				}
+				c := ci.Common()
+				k := ""
+				if c.IsInvoke() {
+					k = invokeKey(c)
+				} else if callee := c.StaticCallee(); callee != nil {
+					k = funcKey(callee)
+				} else {
+					continue
+				}
+				counts[k]++
+				fr.siteOrd[in] = counts[k]
+			}
+		}
+	}
+	if n, ok := fr.siteOrd[site]; ok {
+		return n
+	}
+	fr.callSeq[key]++
+	return 1000 + fr.callSeq[key]
+}
 
 // applyModifies havocs the locations named in the modifies clauses.
 func (fr *Frame) applyModifies(ev *Eval, ct *Contract, st *State, pre *State) {
